@@ -42,6 +42,8 @@ var childEnvs = [][]string{
 	{"TZ=Asia/Kolkata", "GOMAXPROCS=16"},
 	{"TZ=UTC", "GOMAXPROCS=2"},
 	{"TZ=Europe/Berlin", "GOMAXPROCS=7"},
+	// a machine with one processor (an affinity mask of a single CPU, where taskset is installed)
+	{"TZ=UTC", "VERIF_ONE_CPU=1"},
 }
 
 func childBuild(doc, format string, env []string) string {
@@ -50,6 +52,13 @@ func childBuild(doc, format string, env []string) string {
 	must(os.WriteFile(".repro.yaml", []byte(doc), 0o644))
 	defer os.Remove(".repro.yaml")
 	cmd := exec.Command(self, "OP", ".repro.yaml", "pkg:"+format)
+	for _, e := range env {
+		if e == "VERIF_ONE_CPU=1" {
+			if ts, err := exec.LookPath("taskset"); err == nil {
+				cmd = exec.Command(ts, "-c", "0", self, "OP", ".repro.yaml", "pkg:"+format)
+			}
+		}
+	}
 	cmd.Env = append(os.Environ(), env...)
 	out, err := cmd.Output()
 	if err != nil {
